@@ -184,9 +184,14 @@ func (ctx Context) createFirstLinePango(layout *text.TextLayoutPango,
 
 			// Mapping between glyphs and characters
 			utf8Position := utf8Positions[i]
-			outGlyph.TextOffset, outGlyph.TextLength = prevUtf8Position, utf8Position-prevUtf8Position
+			textStart, textEnd := prevUtf8Position, utf8Position
+			if textEnd < textStart {
+				// in right-to-left runs, the clusters are in decreasing order
+				textStart, textEnd = textEnd, textStart
+			}
+			outGlyph.TextOffset, outGlyph.TextLength = textStart, textEnd-textStart
 			if _, in := outFont.Cmap[outGlyph.Glyph]; !in {
-				outFont.Cmap[outGlyph.Glyph] = textRunes[prevUtf8Position:utf8Position]
+				outFont.Cmap[outGlyph.Glyph] = textRunes[textStart:textEnd]
 			}
 			prevUtf8Position = utf8Position
 
